@@ -75,14 +75,94 @@ class TracedList(list):
         return list.__iter__(self)
 
 
+LISTEN_FD = 3
+
+
+class MaintListener:
+    """Stands in for the listening BaseWSGIServer in the socket map: its readable() runs the REAL
+    BaseWSGIServer.maintenance (server.py) over the world's active_channels, as the real listener
+    does from its own readable() in the same `for fd, obj in map.items()` loop.  `due` says in
+    which poll turns (None: every turn).  channel_timeout is whatever the scenario's adj says;
+    the fake clock does not advance, so a negative timeout means "every idle channel is overdue"."""
+    accepting = True
+    connected = False
+
+    def __init__(self, world, due):
+        self.w = world
+        self.due = due
+        self.turn = 0
+
+    def readable(self):
+        from waitress.server import BaseWSGIServer
+        w = self.w
+        k = self.turn
+        self.turn += 1
+        if w.tracing and (self.due is None or k in self.due):
+            st = w._ctx()
+            st.append(["maintenance", 0])
+            w.sched.note("enter", "maintenance")
+            try:
+                BaseWSGIServer.maintenance(w.server, w.ftime.time())
+            finally:
+                st.pop()
+                w.sched.note("exit", "maintenance")
+        return False
+
+    def writable(self):
+        return False
+
+    def handle_read_event(self):  # pragma: no cover
+        pass
+
+    handle_write_event = handle_expt_event = handle_read_event
+
+    def handle_error(self):  # pragma: no cover
+        pass
+
+    def handle_close(self):  # pragma: no cover
+        pass
+
+
 class CloseWorld(World):
     def __init__(self, *a, **k):
         k.setdefault("max_steps", 1500)
+        self.maint = k.pop("maint", False)
         World.__init__(self, *a, **k)
         self.req_ids = {}
         self.req_objs = []
         self.sched.observer = self._observe
         self.final_snap = None
+
+    def _client_main(self):
+        """World's client, plus the step ("shutdown",): the thread then plays the thread that stops
+        the server: the REAL ThreadedTaskDispatcher.shutdown(cancel_pending=True), which calls the
+        channel's cancel() for every entry still queued."""
+        for step in self.client_script:
+            kind = step[0]
+            if kind == "send":
+                self.sched.yield_(Op("client:send", len(step[1])))
+                self.sock.rx.append(bytes(step[1]))
+            elif kind == "close":
+                self.sched.yield_(Op("client:close", None))
+                self.sock.client_gone = True
+            elif kind == "stall":
+                self.sched.yield_(Op("client:stall", None))
+                self.sock.client_reading = False
+            elif kind == "resume":
+                self.sched.yield_(Op("client:resume", None))
+                self.sock.client_reading = True
+            elif kind == "wait_wire":
+                n = step[1]
+                self.sched.yield_(Op("client:wait_wire", n, enabled=lambda n=n: len(self.wire) >= n))
+            elif kind == "shutdown":
+                self.sched.yield_(Op("client:shutdown", None))
+                self.sched.note("enter", "shutdown")
+                try:
+                    self.dispatcher.shutdown(cancel_pending=True, timeout=step[1])
+                finally:
+                    self.sched.note("exit", "shutdown")
+            else:  # pragma: no cover
+                raise ValueError(step)
 
     # -- context stack of the running logical thread
     def _ctx(self):
@@ -159,6 +239,10 @@ class CloseWorld(World):
     def _make_channel_class(self):
         from waitress.channel import HTTPChannel
         world = self
+        if self.maint is not False:
+            # (called by World.run after the trigger has been put into the map and before the
+            # channel is created: the listener precedes the channel, as in a real server)
+            self.map[LISTEN_FD] = MaintListener(self, None if self.maint is True else set(self.maint))
 
         def wrap(name):
             orig = getattr(HTTPChannel, name)
@@ -348,6 +432,7 @@ def abstract(world):
                 labs.append("app:%s:%s" % (cur_svc.get(t2, "?"), cur_req.get(t2, "?")))
         steps.append({"i": i, "tok": tok, "labels": labs, "after": after(i), "ev": ev[i]})
 
+    sd_pending = []
     # ---- I/O thread state
     io = {"evaluated": False, "hw": None, "pending_add": False, "cont": {}}
     wk = {}   # thread name -> dict(ph=..., popped=bool, pending_add=bool)
@@ -445,6 +530,27 @@ def abstract(world):
             if i in io["cont"]:
                 emit(i, "io")
                 continue
+            if tp == "maintenance":
+                if lst_op(i) is not None and lst_op(i)[0] == "bool":
+                    emit(i, "io:maint")
+                    emit(i, "io")
+                    io["maint_pending"] = len(snaps[i]["reqs"]) == 0
+                elif kind == "R:last_activity" and io.get("maint_pending"):
+                    # does the write follow?
+                    wr = False
+                    for j, (t2, k2, d2) in following(i):
+                        if is_op(j):
+                            wr = (k2 == "W:will_close" and top(ctx_at[j]) == "maintenance")
+                            break
+                    if not wr:
+                        io["maint_pending"] = False
+                        emit(i, "io:to0")
+                elif kind == "W:will_close" and io.get("maint_pending"):
+                    io["maint_pending"] = False
+                    emit(i, "io:to1")
+                elif kind in ("W:will_close", "W:close_when_flushed", "W:connected", "W:requests"):
+                    raise MapError("maintenance: unexpected %r" % (ev[i],))
+                continue
             if tp == "readable":
                 if kind == "R:total_outbufs_len":
                     emit(i, "io:len%d" % snaps[i]["tol"])
@@ -494,6 +600,15 @@ def abstract(world):
                         pass           # `not self.requests` in the 100-continue test: no model step
                     else:
                         raise MapError("received: unexpected use of requests: %r" % (op,))
+                elif kind == "R:requests":
+                    # the attribute load of `self.requests.append(self.request)`: the list object is
+                    # taken here, the append happens after `self.request` has been loaded
+                    for j, (t2, k2, d2) in following(i):
+                        if is_op(j):
+                            op2 = lst_op(j)
+                            if op2 is not None and op2[0] == "append":
+                                emit(i, "io")
+                            break
                 elif kind == "W:requests":
                     raise MapError("received writes requests")
                 elif kind in ("W:will_close", "W:close_when_flushed", "W:connected"):
@@ -548,6 +663,26 @@ def abstract(world):
                 raise MapError("I/O thread: unmodelled write %r in %r" % (ev[i], c))
             continue
 
+        if t == "client":
+            # the thread that runs ThreadedTaskDispatcher.shutdown -> cancel()
+            if kind == "enter" and d == "cancel":
+                # the popleft happened in the block of the previous operation of this thread
+                k = pos_in_thread[i]
+                l = by_thread[t]
+                j = None
+                for kk in range(k - 1, -1, -1):
+                    if is_op(l[kk]):
+                        j = l[kk]
+                        break
+                if j is None:
+                    raise MapError("cancel() with no preceding operation")
+                sd_pending.append(j)
+                continue
+            if not is_op(i) or tp != "cancel":
+                continue
+            if kind in ("W:will_close", "W:connected", "W:requests"):
+                emit(i, "sd")
+            continue
         if not t.startswith("waitress-"):
             continue
         w = int(t.split("-")[1])
@@ -669,6 +804,12 @@ def abstract(world):
             continue
         if kind in ("W:will_close", "W:connected"):
             raise MapError("service: unmodelled write %r" % (ev[i],))
+    # the popleft of shutdown(): a step of SD at the operation that precedes cancel()
+    for j in sd_pending:
+        labs = []
+        steps.append({"i": j, "tok": "sd", "labels": labs, "after": after(j), "ev": ev[j], "sd_pop": True})
+    if sd_pending:
+        steps.sort(key=lambda s: (s["i"], 0 if not s.get("sd_pop") else 1))
     return steps
 
 
@@ -782,14 +923,24 @@ def build_world(sc, schedule=(), policy=None, granularity="locks", cls=None):
                 # a client that sends the rest only after it has seen part of the first response
                 script.append(("wait_wire", sc["wait_wire"]))
             prev = c
+    if sc.get("shutdown") is not None:
+        # the server is stopped after the k-th client step (the I/O thread keeps running: the model
+        # allows cancel() concurrently with everything)
+        k = min(int(sc["shutdown"]), len(script))
+        script.insert(k, ("shutdown", sc.get("shutdown_timeout", 0.25)))
     if sc.get("close"):
         script.append(("close",))
     plan = [tuple(x) if isinstance(x, list) else x for x in sc.get("send_plan", [])]
     rf = {int(k): v for k, v in (sc.get("recv_faults") or {}).items()}
-    return cls(make_app(), script, schedule=schedule, policy=policy,
-               adj_kw={"channel_request_lookahead": sc.get("lookahead", 0)},
+    adj_kw = {"channel_request_lookahead": sc.get("lookahead", 0)}
+    kw = {}
+    if sc.get("maint") is not None:
+        # maintenance in the given poll turns (True: all); timeout < 0: every idle channel is overdue
+        adj_kw["channel_timeout"] = sc.get("channel_timeout", -1000)
+        kw["maint"] = sc["maint"]
+    return cls(make_app(), script, schedule=schedule, policy=policy, adj_kw=adj_kw,
                n_workers=sc.get("workers", 1), send_plan=plan, recv_faults=rf,
-               granularity=granularity, max_steps=sc.get("max_steps", 1500))
+               granularity=granularity, max_steps=sc.get("max_steps", 1500), **kw)
 
 
 def gen_scenario(rng, with_faults=True):
@@ -853,6 +1004,15 @@ def gen_scenario(rng, with_faults=True):
         sc["send_plan"] = plan
     if with_faults and rng.random() < 0.1:
         sc["recv_faults"] = {str(rng.choice([0, 1])): rng.choice([errno.ECONNRESET, errno.EHOSTUNREACH])}
+    r = rng.random()
+    if r < 0.12:
+        # the listener's maintenance runs in some poll turns; mostly with every idle channel overdue
+        sc["maint"] = sorted(set(rng.randrange(1, 9) for _ in range(rng.choice([1, 2, 3]))))
+        sc["channel_timeout"] = rng.choice([-1000, -1000, 1000])
+    elif r < 0.18:
+        # the server is stopped (ThreadedTaskDispatcher.shutdown -> cancel()) after some client step
+        sc["shutdown"] = rng.choice([0, 1, 1, 2])
+        sc["shutdown_timeout"] = rng.choice([0.05, 0.25])
     return sc
 
 
@@ -869,6 +1029,9 @@ def gen_race_scenario(rng):
           "lookahead": rng.choice([1, 1, 2, 5]), "workers": rng.choice([1, 1, 2])}
     if rng.random() < 0.5:
         sc["wait_wire"] = rng.choice([1, 1, 60, 100])
+    if rng.random() < 0.1:
+        sc["maint"] = sorted(set(rng.randrange(1, 7) for _ in range(2)))
+        sc["channel_timeout"] = -1000
     return sc
 
 
@@ -922,15 +1085,15 @@ SIGNATURE = {
         '{ } try { call:service } except(ClientDisconnected) { } } else { } } if() { with(requests_lock) { '
         'W:close_when_flushed=True for(R:requests) { call:close } W:requests=[] } } else { if(R:requests) { '
         'call:_flush_outbufs_below_high_watermark } if() { } call:close with(requests_lock) { R:requests '
-        'if(R:connected R:requests) { call:add_task } elif(R:connected) { call:send_continue } } } '
-        'if(R:connected) { call:pull_trigger }',
+        'if(R:connected R:requests) { call:add_task } elif(R:connected) { call:send_continue(do_close=False) '
+        '} } } if(R:connected) { call:pull_trigger }',
     "channel.HTTPChannel.write_soon":
         'if(R:connected) { } if() { with(outbuf_lock) { call:_flush_outbufs_below_high_watermark '
-        'if(R:connected) { } if() { } else { if() { } } if(R:total_outbufs_len) { call:_flush_exception '
-        'if(R:total_outbufs_len) { call:pull_trigger } } } }',
+        'if(R:connected) { } if() { } else { if() { } } if(R:total_outbufs_len) { '
+        'call:_flush_exception(do_close=False) if(R:total_outbufs_len) { call:pull_trigger } } } }',
     "channel.HTTPChannel._flush_outbufs_below_high_watermark":
-        'if(R:total_outbufs_len) { with(outbuf_lock) { call:_flush_exception if() { call:pull_trigger } '
-        'while(R:connected R:total_outbufs_len) { call:pull_trigger } } }',
+        'if(R:total_outbufs_len) { with(outbuf_lock) { call:_flush_exception(do_close=False) if() { '
+        'call:pull_trigger } while(R:connected R:total_outbufs_len) { call:pull_trigger } } }',
     "channel.HTTPChannel.cancel":
         'W:will_close=True W:connected=False W:requests=[]',
     "server.BaseWSGIServer.maintenance":
@@ -942,9 +1105,15 @@ SIGNATURE = {
     "wasyncore.dispatcher.recv":
         'try { if() { call:handle_close } else { } } except(OSError) { if() { call:handle_close } else { } }',
     "wasyncore.dispatcher.send":
-        'try { } except(OSError) { if() { } elif() { if() { call:handle_close } } else { } }',
+        'try { call:send } except(OSError) { if() { } elif() { if() { call:handle_close } } else { } }',
     "wasyncore.dispatcher.close":
         'W:connected=False if() { try { call:close } except(OSError) { if() { } } }',
+    "channel.HTTPChannel.send_continue":
+        'with(outbuf_lock) { call:_flush_some(do_close=do_close) }',
+    "channel.HTTPChannel._flush_some_if_lockable":
+        'if() { try { call:_flush_some(do_close=do_close) if(R:total_outbufs_len) { } } finally { } }',
+    "channel.HTTPChannel._flush_some":
+        'while() { while() { call:send(do_close=do_close) if() { } else { } } if() { } } if() { }',
 }
 
 
